@@ -2,6 +2,7 @@
 // C01 (fault-reachable safety slice). Real xerces-c parsers over simulated streams, file system and network.
 #include "../sim/parserun.hpp"
 #include "../sim/schedgen.hpp"
+#include "../sim/schemaworld.hpp"
 
 using namespace sim;
 
@@ -376,10 +377,12 @@ private:
         Rng wr = runRng(seed, index, "workload"), cr = runRng(seed, index, "chunks"), fr = runRng(seed, index, "faults");
         GenOpts go; unsigned big = (unsigned)wr.below(100); if (big < 3) go.padTo = 16384 - (int)wr.below(600); else if (big < 15) go.padBytes = 49152 - (int)wr.below(600); if (big >= 15 && big < 20) go.bigText = true;
         (void)tier;
-        World w = makeWorld(wr, go);
+        bool schemaWorld = wr.chance(1, 6);      // an instance of generated schemas: schema loader, datatype validators and the regular-expression engine behind the same streams
+        World w = schemaWorld ? makeSchemaWorld(wr) : makeWorld(wr, go);
         ParseCfg cfg = ParseCfg::random(wr); if (cfg.scanner == 3) cfg.schema = true;
         cfg.disableDefaultEntityResolution = wr.chance(1, 10);
-        Json plan = Json::obj(); plan.set("mode", "C01");
+        if (schemaWorld) { cfg.schema = true; cfg.ns = true; if (cfg.scanner == 1 || cfg.scanner == 2) cfg.scanner = wr.coin() ? 0 : 3; if (cfg.val == 0) cfg.val = 1 + (int)wr.below(2); }
+        Json plan = Json::obj(); plan.set("mode", "C01"); if (schemaWorld) plan.set("schema_world", true);
         bool faultFree = fr.chance(1, 4);
         if (!faultFree && fr.chance(3, 5)) { int n = 1 + fr.small(3); for (int i = 0; i < n; i++) { Resource& r = w.res[fr.below(w.res.size())]; mutateBytes(fr, r.core); if (r.padAt > r.core.size()) r.padAt = r.core.size(); r.expand(); } plan.set("mutated", true); }
         plan.set("cfg", cfg.toJson()); plan.set("resources", worldToJson(w));
@@ -408,6 +411,7 @@ private:
         catch (const SimAbort&) { o.violated = true; o.cls = "budget"; o.detail = "step budget " + std::to_string(budget) + " exceeded for " + std::to_string(bytes) + " input bytes"; return; }
         o.nontrivial = !g_run.faults.empty() || plan.getb("mutated");
         if (plan.getb("mutated")) g_run.fault("corrupt_bytes");
+        if (plan.getb("schema_world")) g_run.probe("schema_world");
         g_run.probes[std::string("api:") + kApiNames[b.cfg.api]]++; g_run.probes[std::string("scanner:") + kScannerNames[b.cfg.scanner]]++;
         g_run.probes["ending:" + (pr.exception.empty() ? std::string(pr.abandoned ? "abandoned" : pr.fatals ? "fatal" : pr.errors ? "errors" : "clean") : pr.exception.substr(0, pr.exception.find(':')))]++;
         if (!documentedException(pr.exception)) { o.violated = true; o.cls = "foreign-exception:" + pr.exception; o.detail = "an exception of undocumented type escaped parse(): " + pr.exception; return; }
